@@ -145,6 +145,12 @@ func Run(progs []Prog, timeout time.Duration) (map[string]Result, error) {
 		if _, err := os.Stat(exe); err != nil {
 			msg := perPkg[name]
 			if msg == "" {
+				if buildErr == nil && timeout <= 0 {
+					// build-only mode and `go build` succeeded: the package is not a command (a
+					// mutation renamed `package main`), which is a valid outcome of a build
+					res[name] = Result{}
+					continue
+				}
 				msg = "(no binary produced; build output: " + clip(string(out), 600) + ")"
 				missing++
 			}
